@@ -79,7 +79,19 @@ func runClosest(in closestIn) (closestObs, string) {
 			if err != nil {
 				panic(err)
 			}
-			c = controller.VerifNewController(nil, ff, nil, nil, 0)
+			// as in the daemon there is a database, and it already holds ANOTHER map for this fan (a dense identity map
+			// from an earlier start without override): the override must be used as it is
+			pers := persistence.NewPersistence(filepath.Join(dir, "fan2go.db"))
+			if closestSeq%2 == 0 {
+				dense := map[int]int{}
+				for k := 0; k <= 255; k++ {
+					dense[k] = k
+				}
+				if err := pers.SaveFanPwmMap("rec", dense); err != nil {
+					panic(err)
+				}
+			}
+			c = controller.VerifNewController(pers, ff, nil, nil, 0)
 		} else {
 			pers := persistence.NewPersistence(filepath.Join(dir, "fan2go.db"))
 			if err := pers.SaveFanPwmMap("rec", given); err != nil {
